@@ -753,7 +753,7 @@ def name_gen(idx):
 
 
 def rand_expr(rng, depth, scope, fresh, allow_let=True):
-    """scope: dict(vars=[names], fns=[(name, nparams)], params=[names])"""
+    """scope: dict(vars=[names], fns=[(name, nparams)], params=[names][, ppool=[parameter names that lambdas may reuse]])"""
     names = scope["vars"] + scope["params"]
     if depth <= 0 or rng.random() < 0.12:
         if names and rng.random() < 0.55:
@@ -778,8 +778,9 @@ def rand_expr(rng, depth, scope, fresh, allow_let=True):
         sc2 = dict(scope, vars=scope["vars"] + [n])
         return ("let", n, e, rand_expr(rng, depth - 1, sc2, fresh, allow_let))
     if r < 0.96:
-        p = fresh("p")
-        sc2 = dict(scope, params=scope["params"] + [p])
+        pool = scope.get("ppool")
+        p = rng.choice(pool) if pool and rng.random() < 0.5 else fresh("p")      # a reused name shadows an enclosing parameter / outer name
+        sc2 = dict(scope, params=[x for x in scope["params"] if x != p] + [p])
         return ("lamcall", p, rand_expr(rng, depth - 1, sc2, fresh, allow_let), rand_expr(rng, depth - 1, scope, fresh, allow_let))
     return rand_leaf(rng, "plain")
 
@@ -812,6 +813,63 @@ def rand_prog(rng, idx, maxdepth):
             stmts.append(("deflam", n, p, rand_expr(rng, d, sc2, fresh)))
             scope["fns"] = scope["fns"] + [(n, 1)]
     final = rand_expr(rng, rng.randint(1, maxdepth), scope, fresh)
+    return ("prog", stmts, final)
+
+
+def shadow_prog(rng, idx, maxdepth):
+    """Programs in which names are REUSED: the same parameter name in several functions and lambdas, local definitions
+    (`t = … param …`) inside function and lambda bodies, and a variable or function of the parameter's name defined
+    outside – before the function, between its definition and the call, or not at all.  Lexical scoping decides."""
+    fresh = name_gen(idx)
+    pool = [fresh("p"), fresh("p")]
+    tpool = [fresh("l"), fresh("l")]
+    X = pool[0]
+    scope = {"vars": [], "fns": [], "params": [], "ppool": pool}
+    stmts = []
+    mode = rng.choice(["before", "after", "none", "fn-before", "both"])
+
+    def outer_def():
+        if mode == "fn-before":
+            q = fresh("p")
+            stmts.append(("deffn", X, [q], ("bin", rng.choice(["+", "*"]), ("var", q), rand_leaf(rng, "plain"))))
+        else:
+            stmts.append(("defvar", X, ("lit", rng.choice([v for v in PLAIN if v[1] != 0] + [("num", F(100), 0, "")]))))
+            if X not in scope["vars"]:
+                scope["vars"] = scope["vars"] + [X]
+    if mode in ("before", "fn-before", "both"):
+        outer_def()
+    if rng.random() < 0.4:
+        v = fresh("v")
+        stmts.append(("defvar", v, rand_expr(rng, 1, scope, fresh)))
+        scope["vars"] = scope["vars"] + [v]
+    for k in range(rng.randint(1, 3)):
+        f = fresh("f")
+        as_lambda = rng.random() < 0.5
+        params = [X] if (k == 0 or rng.random() < 0.6) else [rng.choice(pool)]
+        if not as_lambda and rng.random() < 0.3:
+            params = params + [p for p in pool + [fresh("p")] if p not in params][:1]
+        sc = dict(scope, params=list(params), vars=[v for v in scope["vars"] if v not in params])
+        use = ("bin", rng.choice(["*", "+", "-"]), ("var", rng.choice(params)), rand_expr(rng, rng.randint(0, 1), sc, fresh, allow_let=False))
+        t = rng.choice(tpool) if rng.random() < 0.6 else fresh("l")
+        sc_t = dict(sc, vars=sc["vars"] + [t])
+        inner = rand_expr(rng, rng.randint(1, max(1, maxdepth - 3)), sc_t, fresh)
+        body = ("let", t, use, ("bin", rng.choice(["+", "-", "*"]), ("var", t), inner)) if rng.random() < 0.85 else \
+            rand_expr(rng, rng.randint(1, 3), sc, fresh)
+        if not as_lambda:
+            stmts.append(("deffn", f, params, body))
+        else:
+            stmts.append(("deflam", f, params[0], body))
+        scope["fns"] = scope["fns"] + [(f, len(params))]
+    if mode in ("after", "both"):
+        outer_def()
+    calls = []
+    for _ in range(rng.randint(1, 2)):
+        fn, n = rng.choice(scope["fns"])
+        calls.append(("call", fn, [rand_leaf(rng, "plain") if rng.random() < 0.7 else rand_expr(rng, 1, scope, fresh, allow_let=False)
+                                   for _ in range(n)]))
+    final = calls[0] if len(calls) == 1 else ("bin", "+", calls[0], calls[1])
+    if rng.random() < 0.2 and X in scope["vars"]:
+        final = ("bin", "+", final, ("var", X))
     return ("prog", stmts, final)
 
 
@@ -1197,22 +1255,147 @@ def size_of(t):
     return 1 + sum(size_of(c) for c in t[1:] if isinstance(c, tuple))
 
 
+def alpha_inner(t, every=False):
+    """(tree, renamed?): every lambda whose parameter shadows an enclosing function / lambda parameter (with `every`: every
+    lambda) gets a fresh parameter name – the same program under lexical scoping"""
+    cnt = [0]
+    changed = [False]
+
+    def go(x, enclosing, ren):
+        k = x[0]
+        if k == "var":
+            return ("var", ren.get(x[1], x[1]))
+        if k == "lit":
+            return x
+        if k == "un":
+            return ("un", x[1], go(x[2], enclosing, ren))
+        if k == "bin":
+            return ("bin", x[1], go(x[2], enclosing, ren), go(x[3], enclosing, ren))
+        if k == "cond":
+            return ("cond", go(x[1], enclosing, ren), go(x[2], enclosing, ren), go(x[3], enclosing, ren))
+        if k == "let":
+            return ("let", x[1], go(x[2], enclosing, ren), go(x[3], enclosing, {a: b for a, b in ren.items() if a != x[1]}))
+        if k == "call":
+            return ("call", x[1], [go(a, enclosing, ren) for a in x[2]])
+        if k == "lamcall":
+            p = x[1]
+            arg = go(x[3], enclosing, ren)
+            if every or p in enclosing:
+                cnt[0] += 1
+                changed[0] = True
+                q = "%szqr%s" % (p, "abcdefghijklmnopqrstuvwxyz"[cnt[0] % 26] * (1 + cnt[0] // 26))
+                return ("lamcall", q, go(x[2], enclosing | {q}, dict(ren, **{p: q})), arg)
+            return ("lamcall", p, go(x[2], enclosing | {p}, {a: b for a, b in ren.items() if a != p}), arg)
+        raise ValueError(k)
+    if t[0] != "prog":
+        return go(t, frozenset(), {}), changed[0]
+    stmts = []
+    for st in t[1]:
+        ps = frozenset(st[2]) if st[0] == "deffn" else frozenset([st[2]]) if st[0] == "deflam" else frozenset()
+        stmts.append(st[:-1] + (go(st[-1], ps, {}),))
+    return ("prog", stmts, go(t[2], frozenset(), {})), changed[0]
+
+
+def capture_pattern(t):
+    """the known shape: inside a function or lambda with parameter p, a local definition whose expression uses p, and in its
+    body a LATER lambda that binds p again"""
+    def uses(x, p):
+        k = x[0]
+        if k == "var":
+            return x[1] == p
+        if k == "lit":
+            return False
+        if k == "call":
+            return any(uses(a, p) for a in x[2])
+        if k == "lamcall":
+            return uses(x[3], p) or (x[1] != p and uses(x[2], p))
+        if k == "let":
+            return uses(x[2], p) or uses(x[3], p)
+        return any(uses(c, p) for c in x[1:] if isinstance(c, tuple))
+
+    def rebinds(x, p):
+        k = x[0]
+        if k in ("var", "lit"):
+            return False
+        if k == "lamcall":
+            return x[1] == p or rebinds(x[2], p) or rebinds(x[3], p)
+        if k == "call":
+            return any(rebinds(a, p) for a in x[2])
+        return any(rebinds(c, p) for c in x[1:] if isinstance(c, tuple))
+
+    def go(x, params):
+        k = x[0]
+        if k in ("var", "lit"):
+            return False
+        if k == "let":
+            if any(uses(x[2], p) and rebinds(x[3], p) for p in params):
+                return True
+            return go(x[2], params) or go(x[3], params)
+        if k == "lamcall":
+            return go(x[2], params | {x[1]}) or go(x[3], params)
+        if k == "call":
+            return any(go(a, params) for a in x[2])
+        return any(go(c, params) for c in x[1:] if isinstance(c, tuple))
+    if t[0] != "prog":
+        return go(t, frozenset())
+    for st in t[1]:
+        ps = frozenset(st[2]) if st[0] == "deffn" else frozenset([st[2]]) if st[0] == "deflam" else frozenset()
+        if go(st[-1], ps):
+            return True
+    return go(t[2], frozenset())
+
+
+def fold_possible(t):
+    """constant folding (op.cc 214-218) starts at a nested definition whose body compiles to a literal, `(w = …; literal)`"""
+    def const(x):
+        k = x[0]
+        if k == "lit":
+            return True
+        if k in ("un", "bin"):
+            return all(const(c) for c in x[1:] if isinstance(c, tuple))
+        if k == "let":
+            return const(x[3])
+        return False
+
+    def go(x):
+        k = x[0]
+        if k in ("var", "lit"):
+            return False
+        if k == "let":
+            return const(x[3]) or go(x[2]) or go(x[3])
+        if k == "call":
+            return any(go(a) for a in x[2])
+        if k == "prog":
+            return any(go(st[-1]) for st in x[1]) or go(x[2])
+        return any(go(c) for c in x[1:] if isinstance(c, tuple))
+    return go(t)
+
+
+def agrees(ref, v):
+    return (ref is None) or (ref[0] == "err" and v.startswith("err")) or \
+        (ref[0] == "val" and v.startswith("ok\t") and den_of_answer(v[3:]) == ref[1])
+
+
 def known_cause(t, fp, msg):
-    """Attribute an oracle failure to a root cause that a fixed witness already establishes – only after a
-    decisive re-run on the binary confirms it, so that a different defect in the same program is not masked."""
+    """Attribute an oracle failure to a root cause that a fixed witness already establishes – only when the program has
+    the known shape AND a decisive re-run on the binary confirms it, so that a different defect in the same program is
+    not masked."""
+    if fp not in ("C15:eval:value", "C15:eval:missing-error", "C15:eval:rendering"):
+        return None
     ops = ops_of(t)
-    if fp in ("C15:eval:value", "C15:eval:missing-error", "C15:eval:rendering") and "let" in ops:
-        h = inline_lets(t)
+    ref = reference(t)
+    # 1. parameter capture: with the shadowing inner lambdas renamed (the same program lexically) ledger agrees with the reference
+    t1, renamed = alpha_inner(t)
+    if renamed and capture_pattern(t) and ref is not None and agrees(ref, oneshot_eval(text_of(t1))):
+        return "C15:scope:parameter-capture"
+    # 2. constant folding: with the nested definitions written out in place (nothing is defined inside an operand any more,
+    #    so nothing is folded) ledger agrees with the reference
+    if "let" in ops and fold_possible(t):
+        h = inline_lets(alpha_inner(t, every=True)[0])      # renamed first, so that writing a definition out captures nothing
         if size_of(h) > 4000:
             return None
-        ref = reference(t)
-        v = oneshot_eval(text_of(h))
-        ok = (ref is None) or (ref[0] == "err" and v.startswith("err")) or \
-             (ref[0] == "val" and v.startswith("ok\t") and den_of_answer(v[3:]) == ref[1])
-        if not ok:
+        if not agrees(ref, oneshot_eval(text_of(h))):
             return None
-        # with the nested definitions written out in place (so that nothing is folded) ledger agrees with the reference:
-        # the cause is constant folding
         if "assert" in msg:
             return "C15:op.cc:compile:fold-O_COLON"
         if "call" in ops:
@@ -1319,8 +1502,19 @@ def report_failures(ctx):
                 small = shrink(t, tree_fails)
             except Exception:
                 small = t
-        ctx.violation(fp + ":" + top_op(small), msg, {"expr": text_of(small), "full": text_of(small, full=True), "found_in": text_of(t),
-                                                      "how": "ledger parse '<expr>'; ledger eval 'verif_rational((<expr>))'", "kind": "case"})
+        rp = {"expr": text_of(small), "full": text_of(small, full=True), "found_in": text_of(t),
+              "how": "ledger parse '<expr>'; ledger eval 'verif_rational((<expr>))'", "kind": "case"}
+        if fp in ("C15:eval:value", "C15:eval:missing-error") and agrees(reference(small), oneshot_eval(rp["expr"])):
+            # not reproduced by a fresh process: the failure needs the definitions the first rendering left in the session
+            fp = "C15:eval:rendering"
+        rf = reference(small)
+        if fp == "C15:eval:value" and rf is not None and rf[0] == "val" and isinstance(rf[1], dict):
+            rp["exact"] = {k: str(v) for k, v in rf[1].items()}
+        if fp == "C15:eval:rendering":
+            # the two renderings were evaluated one after the other in ONE ledger process (definitions persist in the session)
+            rp["session"] = ['eval "verif_rational((%s))"' % rp["full"], 'eval "verif_rational((%s))"' % rp["expr"]]
+            rp["how"] = "both lines, in this order, in one `ledger -f /dev/null` session"
+        ctx.violation(fp + ":" + top_op(small), msg, rp)
 
 
 def top_op(t):
@@ -1398,6 +1592,42 @@ def boundary_cases():
         if i == 1:
             defs = [("defvar", y, L(5)), ("defvar", y, L(7)), ("deffn", f, [x], ("bin", "+", ("var", x), ("var", y)))]
         out.append(("prog", defs, ("call", f, [L(1)])))
+    # parameter scoping at its edges: a local definition that uses the parameter, with a variable / function of the
+    # parameter's name defined outside before the function, after it but before the call, or not at all; as a function
+    # and as a lambda; called once and twice; two functions with the same parameter name; nested shadowing
+    k = 0
+    for outer in ("none", "before", "after", "fn-before"):
+        for form in ("deffn", "deflam"):
+            for twice in (False, True):
+                fresh = name_gen(900300 + k)
+                k += 1
+                X, f, t, q = fresh("p"), fresh("f"), fresh("l"), fresh("p")
+                body = ("let", t, ("bin", "*", ("var", X), L(2)), ("bin", "+", ("var", t), L(1)))
+                fdef = ("deffn", f, [X], body) if form == "deffn" else ("deflam", f, X, body)
+                odef = ("deffn", X, [q], ("bin", "+", ("var", q), L(1000))) if outer == "fn-before" else ("defvar", X, L(100))
+                stmts = [odef, fdef] if outer in ("before", "fn-before") else [fdef, odef] if outer == "after" else [fdef]
+                fin = ("call", f, [L(5)])
+                if twice:
+                    fin = ("bin", "+", fin, ("call", f, [L(7)]))
+                out.append(("prog", stmts, fin))
+    for i in range(4):
+        fresh = name_gen(900400 + i)
+        X, f, g, t, u = fresh("p"), fresh("f"), fresh("f"), fresh("l"), fresh("l")
+        if i == 0:      # two functions, same parameter name, same local name
+            out.append(("prog", [("deffn", f, [X], ("let", t, ("bin", "*", ("var", X), L(2)), ("bin", "+", ("var", t), L(1)))),
+                                 ("deffn", g, [X], ("let", t, ("bin", "+", ("var", X), L(3)), ("bin", "*", ("var", t), L(2))))],
+                        ("bin", "-", ("call", f, [L(5)]), ("call", g, [L(7)]))))
+        elif i == 1:    # one calls the other, both with the parameter X and a local definition
+            out.append(("prog", [("defvar", X, L(100)),
+                                 ("deffn", g, [X], ("let", u, ("bin", "+", ("var", X), L(1)), ("var", u))),
+                                 ("deffn", f, [X], ("let", t, ("bin", "*", ("var", X), L(2)), ("call", g, [("var", t)])))],
+                        ("bin", "+", ("call", f, [L(5)]), ("var", X))))
+        elif i == 2:    # an inner lambda shadows the parameter but no local definition crosses it
+            out.append(("prog", [("defvar", X, L(100)), ("deffn", f, [X], ("lamcall", X, ("bin", "+", ("var", X), L(1)), ("bin", "*", ("var", X), L(2))))],
+                        ("call", f, [L(5)])))
+        else:           # the known capture: the local definition is used under an inner lambda with the same parameter name
+            out.append(("prog", [("deffn", f, [X], ("let", t, ("bin", "*", ("var", X), L(2)), ("lamcall", X, ("bin", "+", ("var", t), ("var", X)), L(5))))],
+                        ("call", f, [L(1)])))
     return out
 
 
@@ -1514,6 +1744,8 @@ def run(tier, seed):
     for i in range(n_prog):
         if i % 15 == 0:
             rcases.append(rec_prog(rng, base + i))
+        elif i % 3 == 1:
+            rcases.append(shadow_prog(rng, base + i, 6))
         else:
             rcases.append(rand_prog(rng, base + i, 7))
     run_batch(ctx, rcases, "random")
@@ -1551,6 +1783,10 @@ def replay(obj):
         got = den_of_answer(v[3:]) if v.startswith("ok\t") else None
         print("exact:          ", r["exact"])
         return 0 if got == want else 1
+    if "session" in r:
+        outs = [eval_answer(o) for o in repl(list(r["session"]))]
+        print("one session:    ", outs)
+        return 0 if same_value(outs[0], outs[1]) else 1
     if "full" in r:
         v2 = oneshot_eval(r["full"])
         print("fully parenthesised:", r["full"], "->", v2)
